@@ -259,6 +259,15 @@ class SymOps:
         from .engine import V
         return z3.Function("attr_" + name, V, V)(self.v(x))
 
+    def iter_elem(self, it, j):
+        """j-th element produced by iterating over an opaque iterable"""
+        from .engine import V
+        return z3.Function("iter_elem", V, z3.IntSort(), V)(self.v(it), j)
+
+    def iter_len(self, it):
+        from .engine import V
+        return z3.Function("len", V, z3.IntSort())(self.v(it))
+
     def contains(self, container, item):
         from .engine import V
         return z3.Function("contains", V, V, z3.BoolSort())(self.v(container), self.v(item))
